@@ -377,7 +377,7 @@ fn t_adaptive_par(c: &mut Case, i: &Inp) -> Res {
 // ---------------------------------------------------------------------------------------------
 // driving loops
 // ---------------------------------------------------------------------------------------------
-struct Plan { trained: bool, maxlen: usize, big: bool, freq_tables: bool, deep_train: bool, huge: usize }
+struct Plan { trained: bool, maxlen: usize, big: bool, freq_tables: bool, deep_train: bool, huge: usize, startup: bool }
 
 // ---------------------------------------------------------------------------------------------
 // large-input (`huge_*`) families: sizes just above the 16-bit / 20-bit marks, one symbol occurring > 65535 times,
@@ -489,6 +489,46 @@ fn drive(ctx: &mut Ctx, target: &str, p: &Plan, body: &dyn Fn(&mut Case, &Inp) -
             c.hash_more(&(d as u64).to_le_bytes());
             let i = Inp { data, train, freqs: None, kind: 97 }; record(c, &format!("fibtrain_d{d}"), "cover", &i); body(c, &i) });
     } }
+    if p.startup { startup_cases(ctx, target, body); }
+}
+
+/// `startup_*`: the first symbols a state-machine coder (rANS / FSE) processes meet a state that is still a small,
+/// highly structured number (1, L, powers of two), which is where an exact-equality renormalisation bound can be hit.
+/// One case = one body over a few filler symbols plus 2..3 rare symbols with the smallest byte values (so they own the
+/// first table slots, normalised frequency 1..4) and EVERY tail (and, mirrored, head) of length <= 6 over
+/// {rare symbols, one filler} plus runs of 1..24 of one rare symbol optionally followed by another symbol.
+fn startup_cases(ctx: &mut Ctx, target: &str, body: &dyn Fn(&mut Case, &Inp) -> Res) {
+    for idx in 0..ctx.n(6, 120) as u64 {
+        ctx.case(target, "startup_tails", idx, |c| {
+            let total = *c.rng.pick(&[4096usize, 4096, 4096, 8192, 16384, 65536]); let unit = total / 4096;
+            let base = c.rng.below(2) as u8; let r = 2 + c.rng.usize_below(2); let nfill = *c.rng.pick(&[1usize, 2, 8, 8, 16]);
+            let rare: Vec<u8> = (0..r as u8).map(|j| base + j).collect(); let fill: Vec<u8> = (0..nfill as u8).map(|j| base + r as u8 + j).collect();
+            let mult: Vec<usize> = (0..r).map(|_| *c.rng.pick(&[1usize, 1, 2, 2, 3, 4])).collect();
+            // body: fillers (round robin or random), then rare symbol j planted mult[j] * unit times at random positions
+            let rr = c.rng.bool(); let mut bodyv: Vec<u8> = (0..total).map(|k| if rr { fill[k % nfill] } else { fill[c.rng.usize_below(nfill)] }).collect();
+            for (j, &s) in rare.iter().enumerate() { let want = (mult[j] * unit).saturating_sub(if c.rng.bool() { 0 } else { 3.min(mult[j] * unit - 1) }); for _ in 0..want { let p = c.rng.usize_below(total); bodyv[p] = s; } }
+            c.input_str("kind", &format!("startup total={total} base={base} rare={r} mult={mult:?} nfill={nfill} rr={rr}")); c.input("body", &bodyv);
+            let mut alpha = rare.clone(); alpha.push(fill[0]);
+            // work bound (deterministic): variants * total <= 48 MiB per case; runs first, then all tuples if they fit, else a sample
+            let cap = (48usize << 20) / total / 2;
+            let mut edits: Vec<Vec<u8>> = Vec::new();
+            for &s in &rare { for k in 1..=24usize { edits.push(vec![s; k]); for &o in &alpha { if o != s { let mut t = vec![s; k]; t.push(o); edits.push(t.clone()); t.rotate_right(1); edits.push(t); } } } }
+            let mut tuples: Vec<Vec<u8>> = Vec::new();
+            for l in 1..=6u32 { for code in 0..alpha.len().pow(l) { let mut t = Vec::with_capacity(l as usize); let mut x = code; for _ in 0..l { t.push(alpha[x % alpha.len()]); x /= alpha.len(); } if t.iter().any(|b| rare.contains(b)) { tuples.push(t); } } }
+            let full = edits.len() + tuples.len() <= cap;
+            if full { edits.append(&mut tuples); } else { c.rng.shuffle(&mut tuples); tuples.truncate(cap.saturating_sub(edits.len())); edits.append(&mut tuples); edits.truncate(cap.max(64)); }
+            c.note(if full { "startup_all_tuples_le6" } else { "startup_sampled_tuples" }, 1);
+            let mut done = 0u64;
+            for e in edits.iter() { for head in [false, true] {
+                let mut data = bodyv.clone(); let l = e.len();
+                if head { data[..l].copy_from_slice(e); } else { data[total - l..].copy_from_slice(e); }
+                let i = Inp { train: data.clone(), data, freqs: None, kind: 94 };
+                if let Err(mut f) = body(c, &i) { f.detail = format!("{} = {:?} over the recorded body: {}", if head { "head" } else { "tail" }, e, f.detail); return Err(f); }
+                done += 1;
+            } }
+            c.note("startup_variants_run", done);
+            Ok(()) });
+    }
 }
 
 fn silence_stdout() {
@@ -500,10 +540,10 @@ fn silence_stdout() {
 
 pub fn run(ctx: &mut Ctx) {
     silence_stdout();
-    let lin = Plan { trained: true, maxlen: 4097, big: true, freq_tables: false, deep_train: false, huge: (3 << 20) + 5 };   // linear-time, trained on separate data
-    let lin_small = Plan { trained: true, maxlen: 4097, big: false, freq_tables: false, deep_train: false, huge: (1 << 20) + 1 };
-    let selfp = Plan { trained: false, maxlen: 4097, big: true, freq_tables: false, deep_train: false, huge: (3 << 20) + 5 }; // self-describing / self-trained
-    let quad = Plan { trained: true, maxlen: 3000, big: false, freq_tables: false, deep_train: false, huge: 0 };  // quadratic search
+    let lin = Plan { trained: true, maxlen: 4097, big: true, freq_tables: false, deep_train: false, huge: (3 << 20) + 5, startup: false };   // linear-time, trained on separate data
+    let lin_small = Plan { trained: true, maxlen: 4097, big: false, freq_tables: false, deep_train: false, huge: (1 << 20) + 1, startup: false };
+    let selfp = Plan { trained: false, maxlen: 4097, big: true, freq_tables: false, deep_train: false, huge: (3 << 20) + 5, startup: false }; // self-describing / self-trained
+    let quad = Plan { trained: true, maxlen: 3000, big: false, freq_tables: false, deep_train: false, huge: 0, startup: false };  // quadratic search
 
     // --- Huffman family
     drive(ctx, "huff0", &Plan { freq_tables: true, deep_train: true, ..lin }, &|c, i| t_huff0(c, i, false));
@@ -516,18 +556,18 @@ pub fn run(ctx: &mut Ctx) {
     }
     for (t, w) in [("il/x1", 1u8), ("il/x2", 2), ("il/x4", 4), ("il/x8", 8), ("il/with", 0)] { drive(ctx, t, &lin_small, &|c, i| t_il(c, i, w)); }
     // --- rANS
-    let rp = Plan { freq_tables: true, ..lin };
+    let rp = Plan { freq_tables: true, startup: true, ..lin };
     drive(ctx, "rans/x1", &rp, &|c, i| t_rans::<ParallelX1>(c, i));
     drive(ctx, "rans/x2", &rp, &|c, i| t_rans::<ParallelX2>(c, i));
     drive(ctx, "rans/x4", &rp, &|c, i| t_rans::<ParallelX4>(c, i));
     drive(ctx, "rans/x8", &rp, &|c, i| t_rans::<ParallelX8>(c, i));
-    drive(ctx, "rans/adaptive", &selfp, &|c, i| t_rans_adaptive(c, i));
+    drive(ctx, "rans/adaptive", &Plan { startup: true, ..selfp }, &|c, i| t_rans_adaptive(c, i));
     // --- FSE
     for (t, k) in [("fse/default", FseT::Default), ("fse/fast", FseT::Fast), ("fse/high", FseT::High), ("fse/realtime", FseT::Realtime), ("fse/balanced", FseT::Balanced), ("fse/fn", FseT::Fn), ("fse/custom", FseT::Custom)] {
-        drive(ctx, t, &selfp, &|c, i| t_fse(c, i, k));
+        drive(ctx, t, &Plan { startup: true, ..selfp }, &|c, i| t_fse(c, i, k));
     }
-    drive(ctx, "fse/dict", &lin, &|c, i| t_fse(c, i, FseT::Dict));
-    drive(ctx, "fse/nonadaptive", &lin, &|c, i| t_fse(c, i, FseT::NonAdaptive));
+    drive(ctx, "fse/dict", &Plan { startup: true, ..lin }, &|c, i| t_fse(c, i, FseT::Dict));
+    drive(ctx, "fse/nonadaptive", &Plan { startup: true, ..lin }, &|c, i| t_fse(c, i, FseT::NonAdaptive));
     fse_parallel(ctx);
     // --- LZ-style dictionary coders
     drive(ctx, "dict/default", &quad, &|c, i| t_dict(c, i, false));
